@@ -434,7 +434,6 @@ def h_traceback(I, fi):
         return v
 
     rem = CellArray("child_total_idx", (Dn,), read_rem)
-    I.registry.globals_override["np"] = NpZeros(lambda: None)
     made_max = []
 
     def np_zeros(I_, shape, dtype=None):
@@ -491,11 +490,6 @@ def h_traceback(I, fi):
 
     I.registry.loop_invariants[(fi.qualname, 0)] = outer
     I.call_function(fi, [Graph(), Idxs(), "the-node"], {}, force_inline=True)
-
-
-class NpZeros(Model):
-    def __init__(self, f):
-        self.f = f
 
 
 class NpStub2(Model):
